@@ -1,5 +1,6 @@
 import DoitModel.Proofs.C08Dyn12
 import DoitModel.Proofs.C08Confluence
+import DoitModel.Proofs.C08DynTotal
 /-! # C08 (I10) confluence for ANY task graph, dynamic `calc_dep` edges included
 
 Every finished `run_status` and every terminal report equals the schedule-independent denotation `Dyn.DenOf` in every
@@ -179,5 +180,52 @@ def exC08calc : RunInput :=
     outcome := fun n => if n = 2 then .failed else .ok
     calcRes := fun n => if n = 0 then { tasks := [2], calcs := [4] } else if n = 4 then { files := [5] } else {}
     runner := .thread, numProc := 2 }
+
+theorem exC08calc_calcOf : ∀ n c, CalcAny exC08calc n c → n = 1 ∧ (c = 0 ∨ c = 4) := by
+  intro n c h
+  induction h with
+  | base h =>
+    simp only [exC08calc] at h
+    split at h
+    · rename_i hn; simp at h; exact ⟨hn, Or.inl h⟩
+    · simp at h
+  | @res p c _ h ih =>
+    refine ⟨ih.1, ?_⟩
+    rcases ih.2 with rfl | rfl
+    · simp [exC08calc] at h; exact Or.inr h
+    · simp [exC08calc] at h
+
+/-- `exC08calc` is acyclic in the sense of C09 (rank over static and deliverable edges), all edges below 6 -/
+theorem exC08calc_ranked : Ranked exC08calc (fun n => if n = 1 ∨ n = 3 then 1 else 0) ∧
+    ∀ n d, Dep exC08calc n d → d < 6 := by
+  have key : ∀ n d, Dep exC08calc n d → (n = 1 ∨ n = 3) ∧ (d = 0 ∨ d = 2 ∨ d = 4 ∨ d = 5) := by
+    intro n d h
+    cases h with
+    | task h =>
+      simp only [exC08calc] at h
+      split at h
+      · rename_i hn; simp at h; exact ⟨Or.inr hn, Or.inr (Or.inl h)⟩
+      · simp at h
+    | ofCalc h =>
+      obtain ⟨rfl, h | h⟩ := exC08calc_calcOf _ _ h
+      · exact ⟨Or.inl rfl, Or.inl h⟩
+      · exact ⟨Or.inl rfl, Or.inr (Or.inr (Or.inl h))⟩
+    | setup h => simp [exC08calc] at h
+    | resT hc h =>
+      obtain ⟨rfl, rfl | rfl⟩ := exC08calc_calcOf _ _ hc
+      · simp [exC08calc] at h; exact ⟨Or.inl rfl, Or.inr (Or.inl h)⟩
+      · simp [exC08calc] at h
+    | resF hc h =>
+      obtain ⟨rfl, rfl | rfl⟩ := exC08calc_calcOf _ _ hc
+      · simp [exC08calc] at h
+      · simp [exC08calc] at h; exact ⟨Or.inl rfl, Or.inr (Or.inr (Or.inr h))⟩
+  constructor
+  · intro n d h
+    obtain ⟨hn, hd⟩ := key n d h
+    have hd' : ¬ (d = 1 ∨ d = 3) := by rcases hd with rfl | rfl | rfl | rfl <;> decide
+    simp [hn, hd']
+  · intro n d h
+    obtain ⟨_, hd⟩ := key n d h
+    rcases hd with rfl | rfl | rfl | rfl <;> decide
 
 end DoitModel.Run.Dyn
